@@ -1,0 +1,38 @@
+//go:build verif
+
+// Contracts for the big-number paths of the CBE encoder (package cbe, fifth file), read as text
+// by the verification-condition generator in /verif. This file contains no code.
+//
+// C18: an encoder is handed the caller's own *big.Int / *big.Float / *apd.Decimal (the iterator
+// passes pointer-held numbers straight through), so it must not change them.
+
+package cbe
+
+// The operations the encoder side of the package applies to big numbers: read-only ones, and
+// Neg, whose only use (in OnBigInt) is on a new big.Int (proved below: value keeps its
+// abstraction, i.e. sign, low word, and the identity of the words above).
+//@ structural cbe-bigint-ops: callees cbe@cbe.(*Encoder)|cbe.(*Writer)|cbe.(*Marshaler) into math/big: (*Int).IsInt64 (*Int).IsUint64 (*Int).Int64 (*Int).Uint64 (*Int).Neg (*Int).Bits (*Float).Float64
+//@ structural cbe-apd-ops: callees cbe@cbe.(*Encoder)|cbe.(*Writer)|cbe.(*Marshaler) into github.com/cockroachdb/apd/v2: none
+
+//@ spec BigSame(p *big.Int) bool = bigNeg[uint64(p)] == old(bigNeg[uint64(p)]) && bigIs64[uint64(p)] == old(bigIs64[uint64(p)]) && bigLo[uint64(p)] == old(bigLo[uint64(p)]) && bigHi[uint64(p)] == old(bigHi[uint64(p)])
+
+// Type byte, length prefix, magnitude bytes (little endian, no leading zero byte).
+//@ func (*Writer).WriteTypedBigInt
+//@   use WPATH(_this)
+//@   requires value != nil ==> !big.Zero(value)
+//@   modifies alloc
+//@   ensures outLen > old(outLen) && out[old(outLen)] == ite(value == nil, byte(0x7d), byte(cbeType))
+//@   loop 0 invariant 0 <= lastWordByteCount && lastWordByteCount <= 8 && (lastWordByteCount > 0 && lastWordByteCount < 8 ==> uint64(lastWord) < (uint64(1) << (64 - 8*uint64(lastWordByteCount)))) && (lastWordByteCount == 8 ==> lastWord == 0) && (lastWordByteCount == 0 ==> lastWord != 0)
+//@   loop 0 decreases uint64(lastWord)
+//@   loop 1 modifies mem(buff)
+//@   loop 1 invariant -1 <= rangeindex && rangeindex < len(words) && 0 <= iBuff && ite(rangeindex + 1 < len(words), iBuff == 8*(rangeindex+1), iBuff == byteCount)
+//@   loop 2 unroll 8
+
+//@ func (*Encoder).OnBigInt
+//@   use EPATH(_this)
+//@   modifies bigNeg, bigIs64, bigLo, bigHi, alloc
+//@   requires value != nil ==> big.WF(value)
+//@   ensures value != nil ==> BigSame(value)
+//@   ensures value == nil ==> outLen == old(outLen) + 1 && out[old(outLen)] == 0x7d
+//@   ensures value != nil && bigIs64[uint64(value)] ==> outLen == old(outLen) + cbe.IntLen(bigNeg[uint64(value)], bigLo[uint64(value)]) && (forall i uint64 :: i < cbe.IntLen(bigNeg[uint64(value)], bigLo[uint64(value)]) ==> out[old(outLen)+i] == cbe.IntByte(bigNeg[uint64(value)], bigLo[uint64(value)], i))
+//@   ensures value != nil && !bigIs64[uint64(value)] ==> out[old(outLen)] == ite(bigNeg[uint64(value)], byte(0x67), byte(0x66))
